@@ -497,7 +497,10 @@ def tie(ctx):
             tabs_ = [{a: sorted(al.minors) for a, al in g_.alleles.items()} for g_ in genes]
             if tabs_[0] != tabs_[1]:
                 dif = sorted(set(tabs_[0].items() if False else [(a, tuple(v)) for a, v in tabs_[0].items()]) ^ set((a, tuple(v)) for a, v in tabs_[1].items()))[:4]
-                violations.append({"why": f"the two builds of one database load different star-allele tables: {dif}", "input": {"db": gd}, "signature": "c13:allele_table_differs"})
+                import c09
+                onb = bool(c09.boundary_insertions(genes[0]) | c09.boundary_insertions(genes[1]))
+                violations.append({"why": f"the two builds of one database load different star-allele tables: {dif}", "input": {"db": gd},
+                                   "signature": "c13:allele_table_differs" + (":variant_on_region_boundary" if onb and all("#" in str(x[0]) for x in dif) else "")})
                 continue
             majors = [a for a, al in ga.alleles.items() if al.cn_config == "1"]
             copies = []
